@@ -67,6 +67,12 @@ theorem Inv_step (S : PSet) (s t : SState V) (hI : Inv S s) (hst : Step S s t) :
     · intro hC
       have : ¬ s.C p := fun h => hC ⟨h, hr⟩
       exact (hI p hS hM').2 this
+  | dropCopy extra =>
+    intro p hS hM
+    simp only at hM ⊢
+    have hMp : ¬ s.M p := fun h => hM (Or.inl h)
+    have hCp : ¬ s.C p := fun h => hM (Or.inr (Or.inl h))
+    exact ⟨fun h => h.elim, fun _ => (hI p hS hMp).2 hCp⟩
   | sendNothing =>
     intro p hS hM
     simp only at hM ⊢
